@@ -104,6 +104,7 @@ type tcase struct {
 	fl     flags
 	file   []byte
 	exp    *obs   // generator's expectation (nil on replay without one)
+	exp0   *obs   // cases with UpdateScripts: expectation for the same script WITHOUT UpdateScripts
 	recipe string // human readable
 	tags   []string
 	// c16 only
@@ -112,6 +113,13 @@ type tcase struct {
 
 func (c *tcase) request() string {
 	return "run " + c.fl.String() + " " + runtime.GOOS + " " + runtime.GOARCH + " " + corr.Hx(c.file)
+}
+
+// plainRequest: the same script without UpdateScripts.
+func (c *tcase) plainRequest() string {
+	fl := c.fl
+	fl.update = false
+	return "run " + fl.String() + " " + runtime.GOOS + " " + runtime.GOARCH + " " + corr.Hx(c.file)
 }
 
 // ---------------------------------------------------------------- recording T
@@ -439,6 +447,20 @@ func verdictExit(v string) int {
 
 // ---------------------------------------------------------------- main entry
 
+func classOf(exp, got *obs) string {
+	switch {
+	case exp.verdict != got.verdict:
+		return "verdict-" + exp.verdict + "-reported-" + got.verdict
+	case exp.line != got.line:
+		return "wrong-line"
+	case !bytes.Equal(exp.file, got.file):
+		return "script-file-differs"
+	}
+	return "observables-differ"
+}
+
+func (c *tcase) encode() string { return encodeInput(c) }
+
 func encodeInput(c *tcase) string {
 	s := c.kind + " " + c.fl.String() + " " + corr.Hx(c.file)
 	if c.exp != nil {
@@ -512,20 +534,32 @@ func runTsRun(tier string, seed int64, model string, replay string) *corr.Result
 		}
 	}
 
-	// ---- model
+	// ---- model (cases with UpdateScripts are also asked without it: the "plain" run)
 	reqs := make([]string, len(cases))
+	plainIdx := make([]int, len(cases))
+	allReqs := make([]string, 0, len(cases))
 	for i, c := range cases {
 		reqs[i] = c.request()
+		allReqs = append(allReqs, reqs[i])
 	}
-	modelOut, err := mdl.Run(model, nil, reqs, 0)
+	for i, c := range cases {
+		plainIdx[i] = -1
+		if c.fl.update {
+			plainIdx[i] = len(allReqs)
+			allReqs = append(allReqs, c.plainRequest())
+		}
+	}
+	allOut, err := mdl.Run(model, nil, allReqs, 0)
 	if err != nil {
 		res.Observations = append(res.Observations, "model driver error: "+err.Error())
 		res.Disagree("<driver>", "", err.Error())
 		return res
 	}
+	modelOut := allOut[:len(cases)]
 
 	// ---- implementation (in-process RunT, then the CLI), in parallel; results by index
 	impl := make([]obs, len(cases))
+	plain := make([]*obs, len(cases)) // UpdateScripts cases: the run without it
 	cliExit := make([]int, len(cases))
 	cliFile := make([][]byte, len(cases))
 	cliOut := make([]string, len(cases))
@@ -545,22 +579,28 @@ func runTsRun(tier string, seed int64, model string, replay string) *corr.Result
 				code, after, out := r.runCLI(c.fl, [][]byte{c.file})
 				cliExit[i], cliFile[i], cliOut[i] = code, after[0], out
 			}
-			if c.kind == "c16" && c.fl.update {
+			if c.fl.update {
 				fl2 := c.fl
 				fl2.update = false
-				o2 := r.runReal(fl2, impl[i].file)
-				rerun[i] = &o2
+				o0 := r.runReal(fl2, c.file)
+				plain[i] = &o0
+				if c.kind == "c16" {
+					o2 := r.runReal(fl2, impl[i].file)
+					rerun[i] = &o2
+				}
 			}
 		}(i)
 	}
 	wg.Wait()
 
-	// ---- compare
+	// ---- compare.  Attribution: what goes wrong without UpdateScripts as well is a matter of the
+	// script loop (C01); what goes wrong only under UpdateScripts is a matter of C16.
+	c01, c16 := []string{"C01"}, []string{"C16"}
 	seen := map[string]bool{}
 	nontrivial := 0
 	ioErrs := 0
 	for i, c := range cases {
-		if impl[i].ioErr != "" || (rerun[i] != nil && rerun[i].ioErr != "") || cliExit[i] == -1 {
+		if impl[i].ioErr != "" || (rerun[i] != nil && rerun[i].ioErr != "") || (plain[i] != nil && plain[i].ioErr != "") || cliExit[i] == -1 {
 			// the harness's own temp files failed (disk, descriptor limits, a cleaner): not evidence either way
 			ioErrs++
 			res.Distribution["harness-io-error"]++
@@ -573,69 +613,94 @@ func runTsRun(tier string, seed int64, model string, replay string) *corr.Result
 		key := c.fl.String() + " " + string(c.file)
 		first := !seen[key]
 		seen[key] = true
-		mo, mexit, ok := parseModel(modelOut[i], c.file)
-		implLine := impl[i].String(c.file)
-		if !ok {
-			res.Disagree(reqs[i], implLine, modelOut[i])
-			res.Distribution["model:"+strings.SplitN(modelOut[i], " ", 2)[0]]++
-		} else {
-			if ms := mo.String(c.file); ms != implLine {
-				res.Disagree(reqs[i], implLine+" "+impl[i].note, ms)
-			}
-			if cliExit[i] != -100 {
-				if cliExit[i] != mexit {
-					res.Disagree(reqs[i]+" [cli]", fmt.Sprintf("exit=%d", cliExit[i]), fmt.Sprintf("exit=%d", mexit))
-				}
-				if !bytes.Equal(cliFile[i], mo.file) {
-					res.Disagree(reqs[i]+" [cli file]", corr.Hx(cliFile[i]), corr.Hx(mo.file))
-				}
-			}
-		}
 		for _, t := range c.tags {
 			res.Distribution[c.kind+":"+t]++
 		}
 		res.Distribution[c.kind+":verdict="+impl[i].verdict]++
 		res.Distribution[c.kind+":flags="+c.fl.String()]++
+		if first && len(c.tags) > 0 && c.tags[0] == "nontrivial" {
+			nontrivial++
+		}
+		implLine := impl[i].String(c.file)
 
-		// oracle 1 (C01): the generator's expectation
-		if c.exp != nil {
-			// a C16 case that goes wrong without touching the script file differently is a verdict
-			// (C01) matter; the C16-specific clauses are checked by c16Oracle below
-			prop := "C01"
-			if c.kind == "c16" && !bytes.Equal(c.exp.file, impl[i].file) {
-				prop = "C16"
+		// -- the plain run first (cases with UpdateScripts)
+		owner := c01 // whom differences of the main run are attributed to
+		plainBad := false
+		if c.fl.update {
+			owner = c16
+			fl0 := c.fl
+			fl0.update = false
+			in0 := (&tcase{kind: "c01", fl: fl0, file: c.file, exp: c.exp0}).encode()
+			p := plain[i]
+			pLine := p.String(c.file)
+			if mo0, _, ok := parseModel(allOut[plainIdx[i]], c.file); !ok {
+				res.Disagree(allReqs[plainIdx[i]], pLine, allOut[plainIdx[i]])
+				plainBad = true
+			} else if ms := mo0.String(c.file); ms != pLine {
+				res.DisagreeFor(c01, allReqs[plainIdx[i]], pLine+" "+p.note, ms)
+				plainBad = true
 			}
-			res.OracleChecked[prop]++
-			if es := c.exp.String(c.file); es != implLine {
-				class := "observables-differ"
-				switch {
-				case c.exp.verdict != impl[i].verdict:
-					class = "verdict-" + c.exp.verdict + "-reported-" + impl[i].verdict
-				case c.exp.line != impl[i].line:
-					class = "wrong-line"
-				case !bytes.Equal(c.exp.file, impl[i].file):
-					class = "script-file-differs"
+			if c.exp0 != nil {
+				res.OracleChecked["C01"]++
+				if es := c.exp0.String(c.file); es != pLine {
+					res.Violate("C01", in0, "expected "+es+" got "+pLine+" "+p.note+" [same script without UpdateScripts; "+c.recipe+"]", classOf(c.exp0, p))
+					plainBad = true
 				}
-				res.Violate(prop, in, "expected "+es+" got "+implLine+" "+impl[i].note+" ["+c.recipe+"]", class)
+			}
+			if !bytes.Equal(p.file, c.file) {
+				res.Violate("C16", in0, "script file rewritten without UpdateScripts", "rewritten-without-flag")
 			}
 		}
-		// oracle 2 (C01): the exit status of the standalone command
+		if plainBad {
+			// the script loop itself misbehaves on this script: nothing can be said about UpdateScripts here
+			res.Distribution["c16:not-judged-plain-run-wrong"]++
+			continue
+		}
+
+		// -- model vs implementation
+		mo, mexit, ok := parseModel(modelOut[i], c.file)
+		if !ok {
+			res.Disagree(reqs[i], implLine, modelOut[i])
+			res.Distribution["model:"+strings.SplitN(modelOut[i], " ", 2)[0]]++
+		} else {
+			if ms := mo.String(c.file); ms != implLine {
+				if !c.fl.update && bytes.Equal(mo.file, impl[i].file) {
+					res.DisagreeFor(c01, reqs[i], implLine+" "+impl[i].note, ms)
+				} else {
+					res.DisagreeFor(c16, reqs[i], implLine+" "+impl[i].note, ms)
+				}
+			}
+			if cliExit[i] != -100 {
+				if cliExit[i] != mexit {
+					res.DisagreeFor(owner, reqs[i]+" [cli]", fmt.Sprintf("exit=%d", cliExit[i]), fmt.Sprintf("exit=%d", mexit))
+				}
+				if !bytes.Equal(cliFile[i], mo.file) {
+					res.DisagreeFor(c16, reqs[i]+" [cli file]", corr.Hx(cliFile[i]), corr.Hx(mo.file))
+				}
+			}
+		}
+
+		// -- oracle 1: the generator's expectation
+		if c.exp != nil {
+			res.OracleChecked[owner[0]]++
+			if es := c.exp.String(c.file); es != implLine {
+				res.Violate(owner[0], in, "expected "+es+" got "+implLine+" "+impl[i].note+" ["+c.recipe+"]", classOf(c.exp, &impl[i]))
+			}
+		}
+		// -- oracle 2: the exit status of the standalone command
 		if cliExit[i] != -100 {
-			res.OracleChecked["C01"]++
+			res.OracleChecked[owner[0]]++
 			want := verdictExit(impl[i].verdict)
 			if c.exp != nil {
 				want = verdictExit(c.exp.verdict)
 			}
 			if cliExit[i] != want {
-				res.Violate("C01", in, fmt.Sprintf("cmd/testscript exit status %d, want %d (RunT verdict %s): %s", cliExit[i], want, impl[i].verdict, lastLines(cliOut[i], 3)), "cli-exit-status")
+				res.Violate(owner[0], in, fmt.Sprintf("cmd/testscript exit status %d, want %d (RunT verdict %s): %s", cliExit[i], want, impl[i].verdict, lastLines(cliOut[i], 3)), "cli-exit-status")
 			}
 		}
-		// oracle 3 (C16): frame + fix-point, stated on the parsed archives
+		// -- oracle 3 (C16): frame + fix-point, stated on the parsed archives
 		if c.kind == "c16" {
 			c16Oracle(res, c, in, impl[i], rerun[i])
-		}
-		if first && len(c.tags) > 0 && c.tags[0] == "nontrivial" {
-			nontrivial++
 		}
 	}
 
@@ -707,7 +772,7 @@ func multiCLI(res *corr.Result, r *runner, rng *rand.Rand, cases []*tcase, impl 
 	}
 	out, err := mdl.Run(model, nil, reqs, 1)
 	if err != nil {
-		res.Disagree("<driver cli>", "", err.Error())
+		res.DisagreeFor([]string{"C01"}, "<driver cli>", "", err.Error())
 		return
 	}
 	codes := make([]int, len(gs))
@@ -731,7 +796,7 @@ func multiCLI(res *corr.Result, r *runner, rng *rand.Rand, cases []*tcase, impl 
 		}
 		res.Distribution["cli-multi"]++
 		if got := fmt.Sprintf("exit=%d", codes[gi]); got != out[gi] {
-			res.Disagree(reqs[gi], got, out[gi])
+			res.DisagreeFor([]string{"C01"}, reqs[gi], got, out[gi])
 		}
 		res.OracleChecked["C01"]++
 		anyFail := false
